@@ -101,6 +101,31 @@ ReflOutcomes(tclass) == CASE tclass = "zero"  -> {"angle"}
                           [] tclass = "above" -> {"refused"}
                           [] tclass = "band"  -> {"angle", "refused"}
 
+(* ---- operand forms of one call (how the same mathematical setup may be supplied)        *)
+(* The result for detector i and wavelength j is the construction for (b1_i, b2_i,         *)
+(* lambda_ij, g) whatever the form of the operands:                                        *)
+(*   wavelength: "outer" 1-d along its own dim (result = outer product with the detectors),*)
+(*     "grid" 2-d (det, wavelength), "grid_transposed" 2-d (wavelength, det), "strided"    *)
+(*     1-d non-contiguous, "per_detector" 1-d along the detector dim (lambda_i for          *)
+(*     detector i), "scalar" 0-d, "binned" events in detector bins;                         *)
+(*   incident beam: "one" 0-d, "per_pixel" along the detector dim - possibly a different   *)
+(*     beam for every pixel ("per_pixel_mixed": every other pixel has the untilted beam);  *)
+(*   units: wavelength in angstrom / nm / m, gravity in m/s^2 / cm/s^2, the two beams in    *)
+(*     the same or in different length units.                                              *)
+WlForms   == {"outer", "grid", "grid_transposed", "strided", "per_detector", "scalar", "binned"}
+IbForms   == {"one", "per_pixel", "per_pixel_mixed"}
+WlUnits   == {"angstrom", "nm", "m"}
+GUnits    == {"m/s^2", "cm/s^2"}
+BeamUnits == {"m", "mm"}
+ValidForm(f) == /\ f.wl \in WlForms /\ f.ib \in IbForms /\ f.wl_unit \in WlUnits
+                /\ f.g_unit \in GUnits /\ f.ib_unit \in BeamUnits /\ f.sb_unit \in BeamUnits
+(* with a per-pixel incident beam the documented dispatch looks at ALL pixels: the general  *)
+(* path is taken (and the reflectometry variant refuses) as soon as ANY pixel is above the  *)
+(* threshold.  Class of a batch from the classes of its pixels:                             *)
+BatchClass(classes) == IF "above" \in classes THEN "above"
+                       ELSE IF "band" \in classes THEN "band"
+                       ELSE IF "sub" \in classes THEN "sub" ELSE "zero"
+
 (* sign of (2theta with gravity - 2theta without) for a beam perpendicular to gravity    *)
 (* and a detector not below it (y_d >= 0), delta > 0:  larger for forward detectors,     *)
 (* equal at z_d = 0, smaller for backward detectors; 2 = not determined by signs alone   *)
